@@ -277,7 +277,7 @@ class _GeneratorBase(object):
 
     @property
     def form(self):
-        return _forms.share(_lib.ptr(_lib.L.akp_gen_form(self._h)))
+        return _forms.share(_lib.nullable(_lib.L.akp_gen_form, self._h))
 
     @property
     def length(self):
@@ -462,7 +462,7 @@ def virtualarray_generator(h):
 
 def virtualarray_cache(h):
     _install()
-    p = _lib.ptr(_lib.L.akp_virtual_cache(h))
+    p = _lib.nullable(_lib.L.akp_virtual_cache, h)
     if not p:
         return None
     if not _lib.L.akp_cache_state(p):
@@ -473,7 +473,7 @@ def virtualarray_cache(h):
 
 def virtualarray_peek_array(h):
     _install()
-    return _lib.ptr(_lib.L.akp_virtual_peek_array(h))
+    return _lib.nullable(_lib.L.akp_virtual_peek_array, h)
 
 
 def virtualarray_array(h):
